@@ -74,6 +74,9 @@ fn main() {
         eprintln!("watchdog: time budget of {limit}s exceeded; inconclusive");
         std::process::exit(2);
     });
+    if id == "C07" && std::env::var("VERIF_C07_WORKER").is_err() {
+        std::process::exit(c07_supervise(&args, tier, seed, discover, replay.clone()));
+    }
     let ctx = Ctx::new(&id, tier, seed, discover);
     if let Some(path) = replay {
         let txt = std::fs::read_to_string(&path).unwrap_or_else(|e| {
@@ -190,4 +193,125 @@ fn audit_options() {
             println!("MT{} field {} (depth {}): layout generates {:?}, library accepts {:?}", k.0, k.1, k.2, g, a);
         }
     }
+}
+
+/// C07 runs in a child process: a stack overflow or any other abort inside the library cannot be caught
+/// in-process (catch_unwind does not see it), and the property names "abort" and "unbounded recursion".
+/// The worker journals the case each thread is about to run; when the worker dies by a signal, every
+/// journalled case is re-run in a fresh child, and the one that kills it is the replay case of the violation.
+fn c07_supervise(
+    args: &[String],
+    tier: Tier,
+    seed: u64,
+    discover: bool,
+    replay: Option<String>,
+) -> i32 {
+    use std::os::unix::process::ExitStatusExt;
+    use std::process::Command;
+    let exe = std::env::current_exe().expect("own path");
+    let journal = format!(
+        "{}/harness/target/c07-journal-{}",
+        swiftmt_verif::driver::VERIF_ROOT,
+        std::process::id()
+    );
+    let _ = std::fs::remove_dir_all(&journal);
+    let _ = std::fs::create_dir_all(&journal);
+    let status = Command::new(&exe)
+        .args(args)
+        .env("VERIF_C07_WORKER", "1")
+        .env("VERIF_C07_JOURNAL", &journal)
+        .status();
+    let status = match status {
+        Ok(s) => s,
+        Err(e) => {
+            eprintln!("cannot start the C07 worker: {e}");
+            return 2;
+        }
+    };
+    if let Some(code) = status.code() {
+        let _ = std::fs::remove_dir_all(&journal);
+        return code;
+    }
+    let sig = status.signal().unwrap_or(0);
+    eprintln!("C07 worker died by signal {sig}; looking for the case that kills it");
+    let ctx = Ctx::new("C07", tier, seed, discover);
+    // candidates: the replay file itself, or the journalled in-flight cases
+    let mut candidates: Vec<(String, serde_json::Value)> = Vec::new();
+    if let Some(path) = &replay {
+        if let Ok(v) = std::fs::read_to_string(path)
+            .map_err(|e| e.to_string())
+            .and_then(|t| serde_json::from_str::<serde_json::Value>(&t).map_err(|e| e.to_string()))
+        {
+            candidates.push((path.clone(), v["case"].clone()));
+        }
+    } else if let Ok(rd) = std::fs::read_dir(&journal) {
+        for e in rd.filter_map(|e| e.ok()) {
+            if let Ok(v) = std::fs::read_to_string(e.path())
+                .map_err(|e| e.to_string())
+                .and_then(|t| serde_json::from_str::<serde_json::Value>(&t).map_err(|e| e.to_string()))
+            {
+                candidates.push((e.path().to_string_lossy().to_string(), v));
+            }
+        }
+    }
+    let mut code = 2;
+    let mut found = false;
+    for (origin, case) in candidates {
+        let kind = case["kind"].as_str().unwrap_or("?").to_string();
+        let crashes = if replay.is_some() {
+            true // the replay run itself just died on this case
+        } else {
+            let probe = format!("{journal}/probe.json");
+            let _ = std::fs::write(
+                &probe,
+                serde_json::json!({"property": "C07", "sub": "mutated-inputs", "case": case}).to_string(),
+            );
+            Command::new(&exe)
+                .args(["C07", "--replay", &probe])
+                .env("VERIF_C07_WORKER", "1")
+                .stdout(std::process::Stdio::null())
+                .stderr(std::process::Stdio::null())
+                .status()
+                .map(|s| s.code().is_none())
+                .unwrap_or(false)
+        };
+        if !crashes {
+            continue;
+        }
+        found = true;
+        let sig_s = format!("C07|abort|{kind}");
+        let detail = format!(
+            "the process is killed by signal {sig} (stack overflow / abort inside the library, not a catchable panic) on a {}-byte input (target {})",
+            case["input"].as_str().map(|x| x.len()).unwrap_or(0),
+            case["target"].as_str().unwrap_or("?")
+        );
+        if let Some(path) = &replay {
+            if ctx.known_key(&sig_s).is_some() {
+                println!("KNOWN-FINDING: property=C07 {sig_s} {detail}");
+                code = 0;
+            } else {
+                println!("VIOLATION property=C07 replay={path} signature={sig_s} detail={detail}");
+                code = 1;
+            }
+        } else {
+            let mut obs = swiftmt_verif::driver::Obs::default();
+            obs.eval();
+            obs.nontrivial_str(&case.to_string());
+            ctx.report(
+                &mut obs,
+                "mutated-inputs",
+                swiftmt_verif::driver::viol(sig_s, detail),
+                &|| case.clone(),
+            );
+            ctx.total.lock().unwrap().merge(obs);
+            code = ctx.finish();
+        }
+        let _ = origin;
+        break;
+    }
+    if !found {
+        eprintln!("the C07 worker died by signal {sig}, but none of the in-flight cases kills a fresh process: inconclusive");
+    }
+    let _ = std::fs::remove_dir_all(&journal);
+    code
 }
